@@ -809,7 +809,7 @@ def rule_eq_all(rep, db):
 
 
 def main(rep, tier, only):
-    db = load.load(tier, lib=False, drivers=["drv_compare", "drv_oev"])
+    db = load.load(tier, lib=False, drivers=["drv_compare", "drv_oev"], tests=False)
     rep.extra.update(db.stats())
     rep.rule("ST-MIRROR", "strong_typedef operators apply the operator in their name to .get() of the operands in order", floor=20)
     rep.rule("DERIVED", "!=, >, <=, >= are derived from == / < in an accepted form", floor=15)
